@@ -70,10 +70,10 @@ theorem isMarkNode_out {c : Dag} {P : Paths} (h : Inv c P) {r : Reg} (hl : c.liv
 
 theorem Sched.isMarkNode_entry {c : Dag} {P : Paths} {L : List (NodeId × Op)} (g : Good c P) (hS : Sched c P L)
     {p : NodeId × Op} (hp : p ∈ L) : isMarkNode c p.1 = decide (p.2.kind = .mcr) := by
-  obtain ⟨i, hi, hm⟩ := hS.op_node hp
-  have hwf := g.inv.op_wf i p.2 hm
+  obtain ⟨i, o, hi, hm, hpo⟩ := hS.op_node hp
+  have hwf := g.inv.op_wf i o hm
   unfold isMarkNode
-  rw [hi, (opOf_eq_some g.inv.ids_nodup).mpr hm]
+  rw [hi, (opOf_eq_some g.inv.ids_nodup).mpr hm, hpo, wiredOp_kind]
   unfold isResetMark
   have h1 := hwf.not_input
   have h2 := hwf.not_output
@@ -269,14 +269,14 @@ theorem Sched.length_lt {c : Dag} {P : Paths} {L : List (NodeId × Op)} (g : Goo
     refine ⟨?_, hS.nodup⟩
     intro hm
     obtain ⟨p, hp, hp1⟩ := List.mem_map.mp hm
-    obtain ⟨i, hi, _⟩ := hS.op_node hp
+    obtain ⟨i, _, hi, _, _⟩ := hS.op_node hp
     rw [hi] at hp1; cases hp1
   have hsub : ∀ x ∈ NodeId.inp r :: L.map (·.1), x ∈ c.nodeIds := by
     intro x hx
     rcases List.mem_cons.mp hx with rfl | hx
     · exact (g.inv.inp_iff r).mpr hl
     · obtain ⟨p, hp, rfl⟩ := List.mem_map.mp hx
-      exact mem_nodeIds.mpr ⟨p.2, ((hS.nodes p).mp hp).2⟩
+      exact hS.mem_nodeIds hp
   have := hnd.length_le_of_subset hsub
   simp [nodeIds] at this
   omega
